@@ -432,7 +432,8 @@ func closePeer(c net.Conn) {
 	}
 	la := c.LocalAddr()
 	_ = c.Close()
-	if ua, ok := la.(*net.UnixAddr); ok && ua != nil && strings.HasPrefix(ua.Name, scratchDir) {
+	// only a dialling peer's own bound path: for a connection accepted by a harness listener LocalAddr is the LISTENER's path
+	if ua, ok := la.(*net.UnixAddr); ok && ua != nil && strings.HasPrefix(ua.Name, scratchDir) && strings.Contains(ua.Name, "-peer-") {
 		_ = os.Remove(ua.Name)
 	}
 }
